@@ -129,7 +129,20 @@ Section Judge.
     end.
   Definition pool := pool_of (oo_ops o) [oo_v0 o].
 
-  Definition mon_C01 : bool := wf s && forallb (conforms s) pool.
+  (** structure and bounds always; finiteness of reals where it is expected: the source values
+      are finite and the mutation scale is one a run can reach (<= 1e18; spec scales are <= 1e50,
+      the Cauchy factor is below 2^54) *)
+  Definition tame_scale (ms : f64) : bool := fle ms (of_bits 0x43ABC16D674EC800).   (* 1e18 *)
+  Fixpoint finite_expected (l : list op) (acc : list bool) : list bool :=
+    match l with
+    | [] => acc
+    | OMut src _ ms _ :: r => finite_expected r (acc ++ [nth src acc false && tame_scale ms])
+    | OCross srcs _ _ _ :: r => finite_expected r (acc ++ [forallb (fun i => nth i acc false) srcs])
+    | OPanic :: r => finite_expected r acc
+    end.
+  Definition mon_C01 : bool :=
+    wf s && forallb (conforms_g false s) pool &&
+    forallb (fun vb => negb (snd vb) || conforms s (fst vb)) (combine pool (finite_expected (oo_ops o) [true])).
 
   Fixpoint walk (f : list value -> op -> bool) (l : list op) (acc : list value) : bool :=
     match l with
